@@ -8,6 +8,7 @@ import (
 	"strings"
 
 	"github.com/mosaicnetworks/babble/src/common"
+	"github.com/mosaicnetworks/babble/src/crypto/keys"
 	hg "github.com/mosaicnetworks/babble/src/hashgraph"
 )
 
@@ -81,6 +82,9 @@ func buildScenario(rng *rand.Rand, o genOpts, extraNodes int, allowBatch bool, a
 	}
 	for _, nd := range sc.nodes {
 		nd.dumpAll(c)
+		if o.extra == 0 && !o.leave && !nd.batched {
+			nd.dumpDag(c)
+		}
 	}
 	// frames of the reference node (every processed round still cached)
 	ref.dumpFrames(c, ref.processedRounds())
@@ -301,6 +305,60 @@ func checkOracles(r *Result, sc *scenario) {
 	}
 }
 
+// resetUsedNodes (C02, "the block after a fast-sync anchor"): nodes that already delivered
+// blocks are Reset onto an anchor of the reference node — below, at and above their own
+// last block — and fed the rest of the history; their deliveries must continue at
+// anchor+1 without a gap, and every operation is mirrored on the model.
+func resetUsedNodes(r *Result, sc *scenario, rng *rand.Rand) {
+	ref := sc.nodes[0]
+	if len(ref.blocks) < 3 {
+		return
+	}
+	c := sc.cs[0]
+	for t := 0; t < 2; t++ {
+		k := rng.Intn(len(ref.blocks) - 1)
+		pre := ref.order[:rng.Intn(len(ref.order)+1)]
+		if t == 0 {
+			pre = ref.order[:len(ref.order)-rng.Intn(len(ref.order)/4+1)] // a long earlier life: own last block above the anchor
+		}
+		nd, err := resetNodePre(sc.d, ref, 30+t, k, c, pre)
+		if err != nil {
+			r.Inc("resets_refused", 1)
+			continue
+		}
+		for _, g := range sc.d.events {
+			if nd.inserted[g.name] {
+				continue
+			}
+			known := nd.store.KnownEvents()
+			id := keys.PublicKeyID(g.ev.Body.Creator)
+			if last, ok := known[id]; ok && g.ev.Index() <= last {
+				continue
+			}
+			nd.run(c, g)
+		}
+		nd.dumpLast(c)
+		r.Inc("resets_of_used_nodes", 1)
+		if nd.preBlocks-1 > k {
+			r.Inc("resets_below_own_last_block", 1)
+		}
+		r.Inc("blocks_after_reset", len(nd.blocks)-1)
+		anchor := nd.blocks[0].Index()
+		for i, b := range nd.blocks {
+			if b.Index() != anchor+i {
+				r.violateFor("C02", fmt.Sprintf("node reset onto block %d after delivering %d blocks of its own: delivery %d after the anchor has index %d, expected %d", anchor, nd.preBlocks, i, b.Index(), anchor+i),
+					"index-after-reset", sc.replayPayload(map[string]interface{}{"anchor": anchor, "own_blocks_before_reset": nd.preBlocks}))
+				break
+			}
+		}
+		if last := nd.store.LastBlockIndex(); last != anchor+len(nd.blocks)-1 {
+			r.violateFor("C02", fmt.Sprintf("node reset onto block %d after delivering %d blocks: store reports last block %d, delivered up to %d", anchor, nd.preBlocks, last, anchor+len(nd.blocks)-1),
+				"last-block-after-reset", sc.replayPayload(map[string]interface{}{"anchor": anchor, "own_blocks_before_reset": nd.preBlocks}))
+		}
+		nd.close()
+	}
+}
+
 func boolInt(b bool) int {
 	if b {
 		return 1
@@ -411,6 +469,9 @@ func runHGWith(r *Result, thorough bool, prop string, rng *rand.Rand) {
 			extra = 1
 		}
 		sc := buildScenario(rng, o, extra, prop == "C03", prop == "C03" || prop == "C02", prop == "C03")
+		if prop == "C02" {
+			resetUsedNodes(r, sc, rng)
+		}
 		checkOracles(r, sc)
 		nt := measure(r, sc)
 		r.Count(sc.canon, nt[prop])
@@ -419,6 +480,11 @@ func runHGWith(r *Result, thorough bool, prop string, rng *rand.Rand) {
 			r.Inc("scenarios_dynamic_membership", 1)
 		}
 		r.Inc("ops", len(sc.cs[0].Ops))
+		for _, op := range sc.cs[0].Ops {
+			if strings.HasPrefix(op, "HG dag ") {
+				r.Inc("declarative_model_views_compared", 1)
+			}
+		}
 		if i == 0 {
 			r.Sample(map[string]interface{}{"options": o.String(), "first_ops": clip(sc.cs[0].Ops[:min(len(sc.cs[0].Ops), 40)], 40), "blocks_delivered_by_reference": len(sc.nodes[0].blocks)}, 8)
 		}
